@@ -17,7 +17,7 @@ import (
 func init() {
 	register(&Prop{
 		ID: "C14", Level: "fault_enumeration",
-		Rule: "one case = a generated history of 1-7 calls on the Context's ResponseWriter from {WriteHeader (final, informational 1xx, 101, repeated), Write, WriteString, ReadFrom, FlushError, Push, SetReadDeadline, SetWriteDeadline, EnableFullDuplex, Hijack, Context.String/Blob/Stream/Redirect} executed by a real route handler behind ServeHTTP (the request carries a drawn Content-Type of its own or none) over a simulated connection whose capability set is drawn from {ReaderFrom, Flusher, FlushError (alone or next to Flusher; failing in one run in three), Hijacker+Pusher+deadlines+full duplex}; for each history the byte position at which the connection starts failing is enumerated over every byte boundary (and no failure), and the failure position of the ReadFrom/Stream source likewise; after every call Status/Size/Written are compared with the connection's own log (first final status received, bytes accepted, final header or byte received), return values with the bytes accepted during the call, and the whole run is repeated with ReaderFrom toggled (answers must not depend on the fast path); after every history a plain request is served from the recycled context and must start clean and reach the connection (201, two bytes). Finally 2-3 tasks stream distinct bytes (Context.Stream / ReadFrom from plain chunked readers) into connections that yield when a write arrives: every connection receives exactly its own bytes in order. Connection invariants: at most one final header, none after body bytes, bytes in order. Non-trivial: the history wrote body bytes and at least one enumerated fault fired inside it; distinct = hash of (history, capabilities).",
+		Rule: "one case = a generated history of 1-7 calls on the Context's ResponseWriter from {WriteHeader (final, informational 1xx, 101, repeated), Write, WriteString, ReadFrom, FlushError, Push, SetReadDeadline, SetWriteDeadline, EnableFullDuplex, Hijack, Context.String/Blob/Stream/Redirect} executed by a real route handler behind ServeHTTP (the request carries a drawn Content-Type of its own or none) over a simulated connection whose capability set is drawn from {ReaderFrom, Flusher, FlushError (alone or next to Flusher; failing in one run in three), Hijacker+Pusher+deadlines+full duplex}; for each history the byte position at which the connection starts failing is enumerated over every byte boundary (and no failure), and the failure position of the ReadFrom/Stream source likewise; after every call Status/Size/Written are compared with the connection's own log (first final status received, bytes accepted, final header or byte received), return values with the bytes accepted during the call, and the whole run is repeated with ReaderFrom toggled (answers must not depend on the fast path); after every history a plain request is served from the recycled context and must start clean and reach the connection (201, two bytes). One run in four adds a single Write/WriteString/ReadFrom/Stream/Blob/String call carrying 32768-100000 bytes, with the connection failing at four positions. Finally 2-3 tasks stream distinct bytes (Context.Stream / ReadFrom from plain chunked readers) into connections that yield when a write arrives: every connection receives exactly its own bytes in order. Connection invariants: at most one final header, none after body bytes, bytes in order. Non-trivial: the history wrote body bytes and at least one enumerated fault fired inside it; distinct = hash of (history, capabilities).",
 		Run:  runC14, Quick: 12000, Thorough: 2000000,
 		Real:   []string{"recorder ResponseWriter (response_writer.go)", "Context helpers String/Blob/Stream/Redirect", "ServeHTTP dispatch and context pooling"},
 		Stub:   []string{"net/http connection: simulated connection with injected short writes and errors", "io.Reader sources with injected failures"},
@@ -37,12 +37,20 @@ type wStep struct {
 	FailCap  bool   // capability steps: the connection's first answer is an error (passed through), the call is then repeated
 }
 
+// shortData abbreviates a large payload in descriptions.
+func shortData(d string) string {
+	if len(d) > 48 {
+		return fmt.Sprintf("%s...(%d bytes)", d[:24], len(d))
+	}
+	return d
+}
+
 func (s wStep) String() string {
 	switch s.Kind {
 	case "writeheader":
 		return fmt.Sprintf("WriteHeader(%d)", s.Code)
 	case "write", "writestring", "readfrom":
-		return fmt.Sprintf("%s(%q)", s.Kind, s.Data)
+		return fmt.Sprintf("%s(%q)", s.Kind, shortData(s.Data))
 	case "string", "blob", "stream":
 		if s.Format != "" {
 			return fmt.Sprintf("c.String(%d,%q) without values", s.Code, s.Format)
@@ -50,7 +58,7 @@ func (s wStep) String() string {
 		if s.Preset > 0 {
 			return fmt.Sprintf("c.%s(%d,%q) with Content-Type already set (kind %d)", s.Kind, s.Code, s.Data, s.Preset)
 		}
-		return fmt.Sprintf("c.%s(%d,%q)", s.Kind, s.Code, s.Data)
+		return fmt.Sprintf("c.%s(%d,%q)", s.Kind, s.Code, shortData(s.Data))
 	case "redirect":
 		return fmt.Sprintf("c.Redirect(%d,%q)", s.Code, s.URL)
 	}
@@ -454,6 +462,35 @@ func runC14(src sim.Source, o Opts) *Result {
 		}
 	}
 	res.add("faults_fired", fired)
+	// one run in four: a single call carrying a payload larger than any staging buffer a writer may use (32 KiB is the
+	// usual size), with and without a connection failure in the middle - same accounting, same bytes, on both paths
+	if !res.failed() && src.Intn("largepayload", 4) == 3 {
+		size := sim.Pick(src, "largesize", []int{32768, 32769, 40000, 70000, 100000})
+		kind := sim.Pick(src, "largekind", []string{"write", "writestring", "readfrom", "stream", "blob", "string"})
+		big := make([]byte, size)
+		for i := range big {
+			big[i] = byte('a' + i%23)
+		}
+		st := wStep{Kind: kind, Code: 200, Data: string(big), Chunk: src.Intn("chunk", 4)}
+		res.inc("large_payload_" + kind)
+		for _, k := range []int{-1, size / 2, 32768, size - 1} {
+			for _, c := range []world.Caps{caps, func() world.Caps { a := caps; a.ReaderFrom = !a.ReaderFrom; return a }()} {
+				var dummy int
+				zero := false
+				res.Checks++
+				if _, fail := runWHistory(w, []wStep{st}, c, reqCT, k, -1, &dummy, &zero); fail != "" {
+					if len(fail) > 600 {
+						fail = fail[:600] + "..."
+					}
+					res.fail("C14/accounting", "one %s call with %d bytes over %+v, connection fails after %d bytes: %s", kind, size, c, k, fail)
+					break
+				}
+			}
+			if res.failed() {
+				break
+			}
+		}
+	}
 	// overlapping streamed responses: 2-3 tasks stream distinct bytes through Context.Stream / ReadFrom from plain readers
 	// into connections under the seeded scheduler; every connection yields when a write arrives, i.e. while the sender's
 	// copy buffer is in flight. Every body byte is forwarded in order, whatever other requests do meanwhile.
